@@ -2,6 +2,7 @@
 from __future__ import annotations
 
 import corr_normalize
+import corr_semcond
 import semcheck
 import semprop
 from props import _generic
@@ -31,9 +32,13 @@ def corr(rng, quick):
     return corr_normalize.run(rng, 80 if quick else 3000, with_corpus=True, corpus_limit=90 if quick else None)
 
 
+def semcond(rng, quick):
+    return corr_semcond.run(rng, 40 if quick else 1500, corpus_limit=15 if quick else None)
+
+
 def run(ctx) -> int:
     return _generic.run_semantic(ctx, MODULE, LEVEL, RULE, [semcheck.flags_only()], "all", {"normalize", "ast", "cleanup", "regression"},
-                                 EXTRA, (120, 700), (100, 4000), corr=[("normalize", corr)], n_inst=5, facts_over="any",
+                                 EXTRA, (120, 700), (100, 4000), corr=[("normalize", corr), ("theorem side conditions on real rewrites", semcond)], n_inst=5, facts_over="any",
                                  outp_choices=("auto",), one_to_one=True,
                                  assumptions=("clingo's AST.unpool is meaning-preserving (external parameter)",
                                               "global_vars_inside_body is supplied by the real run to the inline_arith op (it is modelled and tied separately in C16/C04)"))
